@@ -21,8 +21,8 @@ type arrStruct struct {
 type typedArray struct {
 	kind     string
 	width    int
-	msg      proto.Message                     // the array itself
-	base     *array.Base                       // its Base
+	msg      proto.Message                       // the array itself
+	base     *array.Base                         // its Base
 	get      func(idx int32) (interface{}, bool) // typed accessor
 	newEmpty func() (proto.Message, *array.Base, func(int32) (interface{}, bool))
 }
